@@ -14,10 +14,10 @@ func init() {
 	register(&propDef{
 		ID:      "C01",
 		Level:   "other",
-		Explain: "Structure of the pipeline registry reply -> tag filter -> health filter -> route commands -> table, decided on every path. Every site is found by its ROLE (what it calls, reads, stores, returns) inside a region (an entry function, the helpers it calls, its closures), not by the name or the shape of the function that contains it today. (W1) every text sent on the chan string parameter of the health watcher (the function that queries Health().State) derives - through helpers, parameters, merges, appends, slices.* - from the list of checks of a Health().State reply, passing on EVERY path a stage that looks at HealthCheck.ServiceTags (tag filter) and a stage that looks at HealthCheck.Status (health filter) before it enters the builder (the function that turns the list into the text; a filter may also be the only use of the builder's parameter); nothing else (constants, fields, other lists) flows in. (W2) a value carried across the iterations of a loop that issues the query is the index / the query options, or it influences neither what is sent nor whether it is sent; the only conditions that decide whether the text of a snapshot is sent are verdicts on the error of the query. (W3) every cycle of the Consul watch loops is paced: on every path from the loop head to a query the WaitIndex of its options is set to the loop-carried index advanced from the reply (the options may be built by a helper, the query may be wrapped by helpers that take the index as a parameter) or the path sleeps (poll mode); the edge on which the query's error is known (nil test or the verdict of a helper) sleeps before the next round. (F1) in the health filter (the stage that looks at Status, with the helpers it calls): the edge that completes each exclusion (serfHealth critical, _node_maintenance, _service_maintenance:<id> critical, on the same node) does not lead to the append of the instance within the current iteration - if the edge is in a helper, for the values the helper returns from there; exploring the filter under the ASSUMPTION 'the accepted-status counter is 0', 'strict mode and total != passing', 'the instance's ServiceID is empty / its CheckID is serfHealth, _node_maintenance, _service_maintenance:x' (branches decided by the assumption are pruned, boolean helpers are evaluated under it) never reaches the append. (F2) the accepted-status counter is incremented only under same node, same service id and a test of the check's Status against the accepted list; the total counter under same node and same service id. (F3) exploring the tag filter under the assumption 'CheckID is serfHealth / _node_maintenance / _service_maintenance:x' every path of an iteration appends the check (slices.DeleteFunc: the drop function returns false). (K1) the key under which the builder records passing instances (map update keyed by health check fields) and the key looked up per catalog entry (map lookup keyed by catalog service fields, same map type) have the same shape Node \".\" ServiceID, key helpers looked through. (M1) the list joined into the text the builder returns is sorted on every path to the join (in place, by a sorting helper, or before the call of a rendering helper). (M2) goroutines started by the builder do not write variables they share unless they hold a mutex. (B1) the updater (the function of package main that selects over WatchServices() and WatchManual()) and its helpers: the buffer parsed by route.NewTable is reset (or freshly made from a concatenation), then receives the service text, then the manual text, and nothing else that is not a constant; texts are traced to the channel they were received from through parameters, variables, struct fields. (B2) from the select, the loop head is not reachable without (re)building the candidate text. Not decided: Consul's own semantics, quiescence, and the 'if and only if' over registry histories beyond this per-snapshot structure.",
+		Explain: "Structure of the pipeline registry reply -> tag filter -> health filter -> route commands -> table, decided on every path. Every site is found by its ROLE (what it calls, reads, stores, returns) inside a region (an entry function, the helpers it calls, its closures), not by the name or the shape of the function that contains it today. (W1) every text sent on the chan string parameter of the health watcher (the function that queries Health().State) derives - through helpers, parameters, merges, appends, slices.* - from the list of checks of a Health().State reply, passing on EVERY path a stage that looks at HealthCheck.ServiceTags (tag filter) and a stage that looks at HealthCheck.Status (health filter) before it enters the builder (the function that turns the list into the text; a filter may also be the only use of the builder's parameter); nothing else (constants, fields, other lists) flows in. (W2) a value carried across the iterations of a loop that issues the query is the index / the query options, or it influences neither what is sent nor whether it is sent; the only conditions that decide whether the text of a snapshot is sent are verdicts on the error of the query. (W3) every cycle of the Consul watch loops is paced: on every path from the loop head to a query the WaitIndex of its options is set to the carried index advanced from the reply - carried by a variable of the loop or by a memory cell that outlives a round (a field of a cursor / watcher struct, a captured variable) into which a value derived from the reply is stored - (the options may be built by a helper, the query may be wrapped by helpers that take the index as a parameter or keep it themselves) or the path sleeps (poll mode); the edge on which the query's error is known (nil test or the verdict of a helper) sleeps before the next round. (F1) in the health filter (the stage that looks at Status, with the helpers it calls): the edge that completes each exclusion (serfHealth critical, _node_maintenance, _service_maintenance:<id> critical, on the same node) does not lead to the append of the instance within the current iteration - if the edge is in a helper, for the values the helper returns from there; exploring the filter under the ASSUMPTION 'the accepted-status counter is 0', 'strict mode and total != passing', 'the instance's ServiceID is empty / its CheckID is serfHealth, _node_maintenance, _service_maintenance:x' (branches decided by the assumption are pruned, boolean helpers are evaluated under it) never reaches the append. (F2) the accepted-status counter is incremented only under same node, same service id and a test of the check's Status against the accepted list; the total counter under same node and same service id. (F3) exploring the tag filter under the assumption 'CheckID is serfHealth / _node_maintenance / _service_maintenance:x' every path of an iteration appends the check (slices.DeleteFunc: the drop function returns false). (K1) the key under which the builder records passing instances (map update keyed by health check fields) and the key looked up per catalog entry (map lookup keyed by catalog service fields, same map type) have the same shape Node \".\" ServiceID, key helpers looked through. (M1) the list joined into the text the builder returns is sorted on every path to the join (in place, by a sorting helper, or before the call of a rendering helper). (M2) goroutines started by the builder do not write variables they share unless they hold a mutex. (B1) the updater (the innermost function around the select over the channels of WatchServices() and WatchManual() whose region - helpers, methods, methods called through an interface - calls route.NewTable): the buffer (or text) parsed by route.NewTable is reset (or allocated for this round, or freshly made from a concatenation / Sprintf / Join / the String() of a builder), then receives the service text, then the manual text, and nothing else that is not a constant; the buffer, the texts and the channels are followed by an object- and field-sensitive tracer through locals, parameters and receivers (resolved at the call sites), fields of state structs (by value, by pointer, made by a constructor), arrays and maps with constant indices, captured variables, results of helpers. (B2) from the instruction that receives the update (the select, or the call that leads to it) the loop head - without a loop in the updater: its return - is not reachable without (re)building the candidate text. Not decided: Consul's own semantics, quiescence, and the 'if and only if' over registry histories beyond this per-snapshot structure.",
 		Run:     runC01,
 		Trusted: []string{"hashicorp/consul/api returns the health state / catalog of the agent's datacenter; blocking queries honour WaitIndex", "sort.Sort / slices.Sort* order the slice", "slices.DeleteFunc removes exactly the elements for which the function returns true"},
-		Mutants: append([]mutant{
+		Mutants: c01SelectMutants(append([]mutant{
 			{Name: "manual update ignored while the service config is empty", File: "main.go", Old: "\t\t\tcase mancfg = <-man:\n\t\t\t}", New: "\t\t\tcase mancfg = <-man:\n\t\t\t\tif svccfg == \"\" {\n\t\t\t\t\tcontinue\n\t\t\t\t}\n\t\t\t}", Expect: "C01.B2"},
 
 			{Name: "health filter bypassed", File: "registry/consul/service.go", Old: "updates <- w.makeConfig(passing)", New: "_ = passing\n\t\tupdates <- w.makeConfig(prefixedChecks)", Expect: "C01.W1"},
@@ -39,8 +39,32 @@ func init() {
 			{Name: "manual text before service text", File: "main.go", Old: "\t\t\ttableBuffer.WriteString(svccfg)\n\t\t\ttableBuffer.WriteString(\"\\n\")\n\t\t\ttableBuffer.WriteString(mancfg)", New: "\t\t\ttableBuffer.WriteString(mancfg)\n\t\t\ttableBuffer.WriteString(\"\\n\")\n\t\t\ttableBuffer.WriteString(svccfg)", Expect: "C01.B1"},
 			{Name: "buffer not reset", File: "main.go", Old: "\t\t\ttableBuffer.Reset()\n", New: "", Expect: "C01.B1"},
 			{Name: "benign: exclusion tests in switch form", File: "registry/consul/passing.go", Old: "\t\t\t\tif c.CheckID == \"_node_maintenance\" {", New: "\t\t\t\tif id := c.CheckID; id == \"_node_maintenance\" {", Expect: ""},
-		}, c01MoreMutants...),
+		}, append(append([]mutant{}, c01MoreMutants...), c01Round2Mutants...)...)),
 	})
+}
+
+// c01SelectMutants: development aid - C01_MUT=<text> restricts `verifcheck mutants C01` to the mutants whose name
+// contains the text (or starts at index N with C01_MUT=#N). Without the variable all mutants run.
+func c01SelectMutants(all []mutant) []mutant {
+	want := os.Getenv("C01_MUT")
+	if want == "" {
+		return all
+	}
+	var out []mutant
+	for k, m := range all {
+		if strings.HasPrefix(want, "#") {
+			n := 0
+			fmt.Sscanf(want, "#%d", &n)
+			if k >= n {
+				out = append(out, m)
+			}
+			continue
+		}
+		if strings.Contains(m.Name, want) || strings.Contains(m.File, want) {
+			out = append(out, m)
+		}
+	}
+	return out
 }
 
 const apiPkg = "github.com/hashicorp/consul/api"
@@ -409,8 +433,13 @@ func (p *c01Pipe) prov(v ssa.Value, fr *c01Frame, depth int) c01Prov {
 			return p.prov(a.X, fr, depth+1)
 		case *ssa.FreeVar:
 			return p.viaFreeVar(a, depth, true, p.prov)
+		case *ssa.FieldAddr:
+			// a field of a struct that is made for this snapshot (a reply wrapped in a small type)
+			return p.provLoad(x, "", fr, depth, p.prov)
 		}
 		return c01Bad("a value loaded from " + accessPath(x.X) + " (state kept outside this snapshot)")
+	case *ssa.Field:
+		return p.provField(x.X, fmt.Sprintf("/%d", x.Field), fr, depth+1, p.prov)
 	case *ssa.Extract:
 		if call, ok := x.Tuple.(*ssa.Call); ok {
 			return p.provCall(call, x.Index, fr, depth)
@@ -423,6 +452,107 @@ func (p *c01Pipe) prov(v ssa.Value, fr *c01Frame, depth int) c01Prov {
 		return p.viaFreeVar(x, depth, false, p.prov)
 	}
 	return c01Bad("a value that is not derived from the reply: " + v.Name() + " in " + fnKey(c01ParentOf(v)))
+}
+
+// provField: the provenance of component path of the struct value v.
+func (p *c01Pipe) provField(v ssa.Value, path string, fr *c01Frame, depth int, rec func(ssa.Value, *c01Frame, int) c01Prov) c01Prov {
+	if v == nil || depth > 80 {
+		return c01Bad("too deep")
+	}
+	switch x := v.(type) {
+	case *ssa.Phi:
+		out := c01Neutral()
+		for _, e := range x.Edges {
+			out = c01MeetProv(out, p.provField(e, path, fr, depth+1, rec))
+		}
+		return out
+	case *ssa.ChangeType:
+		return p.provField(x.X, path, fr, depth+1, rec)
+	case *ssa.Field:
+		return p.provField(x.X, fmt.Sprintf("/%d", x.Field)+path, fr, depth+1, rec)
+	case *ssa.Const:
+		return c01Neutral()
+	case *ssa.UnOp:
+		if x.Op == token.MUL {
+			return p.provLoad(x, path, fr, depth, rec)
+		}
+	case *ssa.Parameter:
+		return p.viaParam(x, fr, depth, func(a ssa.Value, f *c01Frame, d int) c01Prov { return p.provField(a, path, f, d, rec) })
+	case *ssa.Call, *ssa.Extract:
+		call, idx := (*ssa.Call)(nil), 0
+		if c, ok := x.(*ssa.Call); ok {
+			call = c
+		} else if e := x.(*ssa.Extract); true {
+			call, _ = e.Tuple.(*ssa.Call)
+			idx = e.Index
+		}
+		if call == nil {
+			break
+		}
+		sc := call.Call.StaticCallee()
+		if sc == nil || !isRepoFn(sc) || len(sc.Blocks) == 0 || fr.depth() >= 5 {
+			break
+		}
+		inner := &c01Frame{call, fr}
+		out := c01Neutral()
+		eachInstr(sc, func(i ssa.Instruction) {
+			if r, ok := i.(*ssa.Return); ok && idx < len(r.Results) {
+				out = c01MeetProv(out, p.provField(r.Results[idx], path, inner, depth+1, rec))
+			}
+		})
+		return out
+	}
+	return c01Bad("a component of a value that is not derived from the reply: " + v.Name() + " in " + fnKey(c01ParentOf(v)))
+}
+
+// provLoad: the provenance of what is stored in *x.X (+path) - only for objects that are made anew for every snapshot
+// (a struct literal returned by the fetching helper, a local of the loop body), or for a cell that is written in this
+// round before it is read (a store in the same function dominates the load). Any other cell that outlives a snapshot is
+// state.
+func (p *c01Pipe) provLoad(x *ssa.UnOp, path string, fr *c01Frame, depth int, rec func(ssa.Value, *c01Frame, int) c01Prov) c01Prov {
+	t := newC01Tr(p.c)
+	locs := t.locsOf(x.X, c01CxOf(fr))
+	if len(locs) == 0 {
+		return c01Bad("a value loaded from " + accessPath(x.X) + " (state kept outside this snapshot)")
+	}
+	loops := p.snapshotLoops()
+	out := c01Neutral()
+	for _, loc := range locs {
+		a, isAlloc := loc.root.(*ssa.Alloc)
+		fresh := false
+		if isAlloc {
+			for _, ls := range loops {
+				for _, l := range ls {
+					if c01FreshPerRound(a, l, nil) {
+						fresh = true
+					}
+				}
+			}
+		}
+		stored := t.storedAt(loc.root, loc.path+path)
+		if !fresh && loc.known() {
+			for _, sv := range stored {
+				if sv.path == "" && sv.st.Parent() == x.Parent() && dominatesInstr(sv.st, x) {
+					fresh = true // written in this round, on every path to the load
+				}
+			}
+		}
+		if !fresh {
+			return c01Bad("a value loaded from " + accessPath(x.X) + " (state kept outside this snapshot)")
+		}
+		for _, sv := range stored {
+			sfr := c01FrameOf(sv.cx)
+			if sv.cx == nil && sv.st.Parent() == x.Parent() {
+				sfr = fr
+			}
+			if sv.path == "" {
+				out = c01MeetProv(out, rec(sv.v, sfr, depth+1))
+			} else {
+				out = c01MeetProv(out, p.provField(sv.v, sv.path, sfr, depth+1, rec))
+			}
+		}
+	}
+	return out
 }
 
 func c01ParentOf(v ssa.Value) *ssa.Function {
@@ -576,9 +706,17 @@ func (p *c01Pipe) textProv(v ssa.Value, fr *c01Frame, depth int) c01Prov {
 				return out
 			case *ssa.FreeVar:
 				return p.viaFreeVar(a, depth, true, p.textProv)
+			case *ssa.FieldAddr:
+				pr := p.provLoad(x, "", fr, depth, p.textProv)
+				for k, b := range pr.bad {
+					pr.bad[k] = strings.Replace(b, "a value loaded from", "a text loaded from", 1)
+				}
+				return pr
 			}
 			return c01Bad("a text loaded from " + accessPath(x.X) + " (state kept outside this snapshot)")
 		}
+	case *ssa.Field:
+		return p.provField(x.X, fmt.Sprintf("/%d", x.Field), fr, depth+1, p.textProv)
 	case *ssa.Const:
 		return c01Bad("a constant text " + x.String())
 	}
